@@ -790,6 +790,7 @@ def check_lean_specs(rep: Report, rng: Rng):
 
 def run(rep: Report):
     rng = Rng(rep.seed * 1000003 + 8)
+    from .. import opscheck; opscheck.check_ops(rep, ["rank"])
     check_copies(rep)
     check_fn_cases(rep, fn_cases(rng, rep.tier), "functional")
     check_retrieval_classes(rep, rng, 3000 if rep.tier == "thorough" else 400)
